@@ -188,6 +188,13 @@ Theorem pretty_skel_shape : forall E g1 g2, graph_skel E g1 = graph_skel E g2 ->
   map (fun n => map (fun kv => (fst kv, debug_value E (snd kv))) (sort_alist (g_attrs n))) g2.
 Proof. exact graph_skel_eq_shape. Qed.
 
+(* Nothing is dropped or duplicated: the number of printed lines is exactly one per node, one per node
+   attribute, one per edge and one per edge attribute. *)
+Theorem pretty_line_count : forall E g,
+  length (pretty_lines E g) =
+  fold_right (fun n acc => (1 + length (g_attrs n) + fold_right (fun e acc' => 1 + length (snd e) + acc') 0 (g_edges n) + acc)%nat) 0%nat g.
+Proof. exact pretty_lines_count. Qed.
+
 (* decimal rendering of indices is injective (node and edge lines identify their nodes) *)
 Theorem dec_injective : forall n m, dec n = dec m -> n = m.
 Proof. exact dec_inj. Qed.
@@ -218,7 +225,7 @@ Proof. split; [intros H; vm_compute in H; discriminate | vm_compute; reflexivity
 (* the printed lines: node 0 / a: {1, 3, [#null, #true, [syntax node module (1, 1)]]} / n: the Debug form of the string
    (quote and newline escaped, e-acute verbatim, combining grave as \u{300}) / edge 0 -> 0 / k: [graph node 1] / edge 0 -> 1 / node 1 *)
 Example ex_pretty :
-  length (pretty_lines ex_E ex_g) = 7%nat /\
+  length (pretty_lines ex_E ex_g) = 7%nat /\ graph_line_count ex_g = 7%nat /\
   nth 2 (pretty_lines ex_E ex_g) [] = [32;32;110;58;32;34;97;92;34;92;110;233;92;117;123;51;48;48;125;34] /\
   extract_lines (split_lines (pretty_text ex_E ex_g)) = Some (graph_skel ex_E ex_g) /\
   c14_verdict ex_E ex_g (encode_graph ex_g) true (pretty_text ex_E ex_g) false = 0.
